@@ -8,6 +8,7 @@ import (
 	"go/types"
 	"os"
 	"sort"
+	"strconv"
 	"strings"
 
 	"golang.org/x/tools/go/packages"
@@ -38,6 +39,8 @@ type Baseline struct {
 	Tags   map[string]map[string]bool   // qualified function -> tags of its tagged switch statements
 	Shapes map[string]map[string]int    // qualified function -> loose key of a defining expression -> how many locals have it
 	Lits   map[string][]string          // qualified struct type -> fields set by every keyed literal of it
+	// ExprFuncs: qualified function -> source of the declaration, for functions that are one `return E`
+	ExprFuncs map[string]string
 }
 
 // Decl is one line of the inventory.
@@ -53,7 +56,7 @@ func LoadBaseline(path string) (*Baseline, error) {
 		return nil, err
 	}
 	defer f.Close()
-	b := &Baseline{Decls: map[string]map[string]string{}, Locals: map[string]map[string]bool{}, Tags: map[string]map[string]bool{}, Shapes: map[string]map[string]int{}, Lits: map[string][]string{}}
+	b := &Baseline{Decls: map[string]map[string]string{}, Locals: map[string]map[string]bool{}, Tags: map[string]map[string]bool{}, Shapes: map[string]map[string]int{}, Lits: map[string][]string{}, ExprFuncs: map[string]string{}}
 	sc := bufio.NewScanner(f)
 	sc.Buffer(make([]byte, 1<<20), 1<<24)
 	for sc.Scan() {
@@ -71,6 +74,14 @@ func LoadBaseline(path string) (*Baseline, error) {
 			} else {
 				b.Lits[parts[1]] = nil
 			}
+			continue
+		}
+		if parts[0] == "exprfunc" {
+			src, err := strconv.Unquote(parts[2])
+			if err != nil {
+				return nil, fmt.Errorf("%s: malformed exprfunc line for %s", path, parts[1])
+			}
+			b.ExprFuncs[parts[1]] = src
 			continue
 		}
 		if parts[0] == "localshape" {
@@ -199,6 +210,9 @@ func (p *Program) DeclInventory() []string {
 	for _, pkg := range p.All {
 		for _, fd := range p.AllFuncDeclsRaw(pkg) {
 			q := pkg.PkgPath + "." + FuncName(fd)
+			if src, ok := exprHelperSource(p.Fset, fd); ok && !strings.HasSuffix(p.Fset.Position(fd.Pos()).Filename, "_test.go") {
+				out = append(out, "exprfunc\t"+q+"\t"+strconv.Quote(src))
+			}
 			for _, def := range localDefs(fd.Body) {
 				line := "local\t" + q + "\t" + exprKey(pkg.TypesInfo, def.rhs)
 				if !seen[line] {
